@@ -637,3 +637,82 @@ Proof.
 Qed.
 Theorem ti_is_intern max ops : i2t (ti_final max ops) = ti_spec max [] ops.
 Proof. apply (ti_spec_fold max ops ti_empty), tinv_empty. Qed.
+
+(* ---- enumeration matchers ([T;N], &[T] and their graph-name forms) ----
+   How an enumeration is spelled (a term listed several times, the order of the list) is invisible:
+   the answer is the members whose component occurs in the list, each once, and two lists with the
+   same members give the same answer up to order. *)
+Lemma tm_array_pred l x : tm_pred (tm_array l) x = true <-> In x l.
+Proof.
+  unfold tm_array; cbn [tm_pred]. rewrite existsb_exists. split.
+  - intros (y & Hy & E). apply N.eqb_eq in E. subst y. exact Hy.
+  - intros H. exists x. split; [exact H|apply N.eqb_refl].
+Qed.
+Lemma tm_array_pred_ext l l' : (forall x, In x l <-> In x l') ->
+  forall x, tm_pred (tm_array l) x = tm_pred (tm_array l') x.
+Proof.
+  intros H x. destruct (tm_pred (tm_array l) x) eqn:E1, (tm_pred (tm_array l') x) eqn:E2; try reflexivity.
+  - apply tm_array_pred, H, tm_array_pred in E1. congruence.
+  - apply tm_array_pred, H, tm_array_pred in E2. congruence.
+Qed.
+Lemma qmatch_array_ext isgraph ls ls' lp lp' lo lo' gm :
+  (forall x, In x ls <-> In x ls') -> (forall x, In x lp <-> In x lp') -> (forall x, In x lo <-> In x lo') ->
+  forall q, qmatch isgraph (tm_array ls) (tm_array lp) (tm_array lo) gm q
+          = qmatch isgraph (tm_array ls') (tm_array lp') (tm_array lo') gm q.
+Proof.
+  intros Hs Hp Ho q. unfold qmatch.
+  rewrite (tm_array_pred_ext ls ls' Hs), (tm_array_pred_ext lp lp' Hp), (tm_array_pred_ext lo lo' Ho). reflexivity.
+Qed.
+Theorem graph_query_enumeration fast max pl ops ls lp lo gm :
+  Forall op_wf ops ->
+  let st := final pl (graph_impl fast max) ops in
+  let ans := g_query fast max st (tm_array ls) (tm_array lp) (tm_array lo) gm in
+  NoDup ans
+  /\ (forall q, In q ans <-> In q (g_all st) /\ In (qs q) ls /\ In (qp q) lp /\ In (qo q) lo).
+Proof.
+  intros Hw st ans.
+  destruct (graph_query_each_once fast max pl ops (tm_array ls) (tm_array lp) (tm_array lo) gm Hw
+              (tm_array_wf ls) (tm_array_wf lp) (tm_array_wf lo)) as [ND P].
+  split; [exact ND|]. intros q. split.
+  - intros H. apply (Permutation_in _ P), filter_In in H. destruct H as [H M]. split; [exact H|].
+    unfold qmatch in M. cbn [orb] in M. rewrite Bool.andb_true_r in M.
+    apply Bool.andb_true_iff in M. destruct M as [M Mo]. apply Bool.andb_true_iff in M. destruct M as [Ms Mp].
+    repeat split; apply tm_array_pred; assumption.
+  - intros (H & Hs & Hp & Ho). apply (Permutation_in _ (Permutation_sym P)), filter_In. split; [exact H|].
+    unfold qmatch. cbn [orb]. rewrite Bool.andb_true_r.
+    apply tm_array_pred in Hs, Hp, Ho. rewrite Hs, Hp, Ho. reflexivity.
+Qed.
+Theorem graph_query_respelled fast max pl ops ls ls' lp lp' lo lo' gm :
+  Forall op_wf ops ->
+  (forall x, In x ls <-> In x ls') -> (forall x, In x lp <-> In x lp') -> (forall x, In x lo <-> In x lo') ->
+  let st := final pl (graph_impl fast max) ops in
+  Permutation (g_query fast max st (tm_array ls) (tm_array lp) (tm_array lo) gm)
+              (g_query fast max st (tm_array ls') (tm_array lp') (tm_array lo') gm).
+Proof.
+  intros Hw Hs Hp Ho st.
+  destruct (graph_query_each_once fast max pl ops (tm_array ls) (tm_array lp) (tm_array lo) gm Hw
+              (tm_array_wf ls) (tm_array_wf lp) (tm_array_wf lo)) as [_ P].
+  destruct (graph_query_each_once fast max pl ops (tm_array ls') (tm_array lp') (tm_array lo') gm Hw
+              (tm_array_wf ls') (tm_array_wf lp') (tm_array_wf lo')) as [_ P'].
+  eapply Permutation_trans; [exact P|]. eapply Permutation_trans; [|apply Permutation_sym; exact P'].
+  rewrite (filter_ext _ _ (qmatch_array_ext true ls ls' lp lp' lo lo' gm Hs Hp Ho)). apply Permutation_refl.
+Qed.
+Theorem dataset_query_respelled fast max pl ops ls ls' lp lp' lo lo' lg lg' :
+  Forall op_wf ops ->
+  (forall x, In x ls <-> In x ls') -> (forall x, In x lp <-> In x lp') -> (forall x, In x lo <-> In x lo') ->
+  (forall g, gm_pred (gm_array lg) g = gm_pred (gm_array lg') g) ->
+  let st := final pl (dataset_impl fast max) ops in
+  NoDup (d_query fast max st (tm_array ls) (tm_array lp) (tm_array lo) (gm_array lg))
+  /\ Permutation (d_query fast max st (tm_array ls) (tm_array lp) (tm_array lo) (gm_array lg))
+                 (d_query fast max st (tm_array ls') (tm_array lp') (tm_array lo') (gm_array lg')).
+Proof.
+  intros Hw Hs Hp Ho Hg st.
+  destruct (dataset_query_each_once fast max pl ops (tm_array ls) (tm_array lp) (tm_array lo) (gm_array lg) Hw
+              (tm_array_wf ls) (tm_array_wf lp) (tm_array_wf lo) (gm_array_wf lg)) as [ND P].
+  destruct (dataset_query_each_once fast max pl ops (tm_array ls') (tm_array lp') (tm_array lo') (gm_array lg') Hw
+              (tm_array_wf ls') (tm_array_wf lp') (tm_array_wf lo') (gm_array_wf lg')) as [_ P'].
+  split; [exact ND|].
+  eapply Permutation_trans; [exact P|]. eapply Permutation_trans; [|apply Permutation_sym; exact P'].
+  erewrite filter_ext; [apply Permutation_refl|]. intros q. unfold qmatch.
+  rewrite (tm_array_pred_ext ls ls' Hs), (tm_array_pred_ext lp lp' Hp), (tm_array_pred_ext lo lo' Ho), Hg. reflexivity.
+Qed.
